@@ -57,7 +57,8 @@ def build_get(fns):
     use = g.blocks_calling(r"get_range_from_cache_file$")
     rm = g.blocks_calling(r"DiskCache::remove_item$")
     hdr = g.blocks_calling(r"CacheFileHeader::deserialize")
-    eq = _switch_edges(g, r"Eq\(")
+    # the checksum comparison, either polarity: (block, edge taken when equal, edge taken when different)
+    eq = _switch_edges(g, r"Eq\(") + [(b, ff, tt) for (b, tt, ff) in _switch_edges(g, r"Ne\(")]
     if not (crc and ver and isv and use and rm and hdr and eq):
         raise LookupError("get_impl shape not recognised crc=%s verify=%s is_verified=%s use=%s remove=%s header=%s eq=%s" % (crc, ver, isv, use, rm, hdr, eq))
     sc = smt.Script("c12_get_verify_before_use")
